@@ -161,9 +161,9 @@ def threaded_histories(rng, tier, sweep):
         imp = imports_helper(h)
         if tier != "quick":
             modes = THREAD_MODES if imp else THREAD_MODES[:2]    # without an import, "import" changes nothing
-        elif imp and (h[-1].get("pin") or rng.random() < 0.12):
+        elif imp and (h[-1].get("pin") or rng.random() < 0.08):
             modes = ["sandbox"] + (["import"] if rng.random() < 0.25 else [])
-        elif not imp and rng.random() < 0.08:
+        elif not imp and rng.random() < 0.05:
             modes = [THREAD_MODES[k % 2]]
             k += 1
         else:
